@@ -29,15 +29,20 @@ RULE = ("cases = clang-14 text dumps of generated C and C++ programs (globals, s
 EXPLANATION = ("Lean theorems: the importer's line splitter inverts clang's field joining for the field shapes clang emits; the "
                "address-keyed declaration map links every use to the declaration with the referenced address whatever the order of "
                "uses and declarations; location tokens resolve to clang's location exactly when the inherited line is clang's last "
-               "printed line (the importer inherits from the parent node instead: counterexample theorem, finding F35a); the model "
-               "import issues only astOperand1/astOperand2 calls, so C14's AstStore invariant holds for every imported token list; "
+               "printed line (the importer inherits from the parent node instead: counterexample theorem, finding F35a); the token "
+               "attributes a model import returns are by construction the result of running its logged declaration-map calls, so the "
+               "map theorem applies to every import whose calls satisfy its hypotheses (import_uses_linked; hypotheses evaluated on "
+               "every real dump); the model import issues only astOperand1/astOperand2 calls (true by construction of the model; for "
+               "the real importer the premise is the translator obligation T:clangimport-writes-the-AST-through-astOperand1/2-only "
+               "plus the sampled correspondence), so C14's AstStore invariant holds for every imported token list; "
                "the invariant checker run on the real token list is proved sound. Tie: the real splitString/Data/setLocations and "
                "the real parseClangAstDump in-process against the compiled model. Level 'other': the property quantifies over all "
                "programs clang accepts; the model import covers the node kinds listed in Model/ClangDeclMap.lean `supported`; "
                "outside the model: scopes, types, value types, templates, range-for, out-of-line member definitions, never-crash "
                "for arbitrary programs (sampled only), ValueFlow and the checks after the import.")
 THEOREMS = ["Cppcheck.C35.split_join", "Cppcheck.C35.split_join_counterexample", "Cppcheck.C35.use_links_referenced",
-            "Cppcheck.C35.varIds_distinct", "Cppcheck.C35.use_links_dup_address_counterexample", "Cppcheck.C35.location_token_resolves",
+            "Cppcheck.C35.varIds_distinct", "Cppcheck.C35.use_links_dup_address_counterexample", "Cppcheck.C35.import_uses_linked",
+            "Cppcheck.C35.location_token_resolves",
             "Cppcheck.C35.location_sequence_resolves", "Cppcheck.C35.location_inheritance_counterexample",
             "Cppcheck.C35.location_column_counterexample", "Cppcheck.C35.location_lineform_column", "Cppcheck.C35.import_setters_only",
             "Cppcheck.C35.import_ast_invariant", "Cppcheck.C35.checker_sound", "Cppcheck.C35.checked_links"]
@@ -768,6 +773,7 @@ def link_problems(case, toks):
         if exp:
             stats["line_checked"] += 1
             if t["line"] != exp[0]:
+                stats["line_wrong"] = stats.get("line_wrong", 0) + 1
                 key = "loc-line-inherited" if (t["line"] in anclines or t["line"] < exp[0]) else "loc-line-other"
                 bad.append((key, "%s: imported at line %d, clang: line %d" % (where, t["line"], exp[0]), dict(tok=t["idx"])))
             elif t["col"] != exp[1]:
@@ -809,10 +815,16 @@ def link_problems(case, toks):
                              "none" if t["varDef"] is None else "token %d %r" % (t["varDef"], toks[t["varDef"]]["str"]), td["idx"], td["varId"]),
                             dict(tok=t["idx"])))
         elif kind in FUNKINDS and o["role"] == "U":
+            # a function use must be linked to (a declaration token of) the function clang names
             stats["func_uses"] += 1
             ok = t["funDef"] is not None and toks[t["funDef"]]["str"] == t["str"]
             if not ok:
                 stats["func_uses_unlinked"] = stats.get("func_uses_unlinked", 0) + 1
+                # F35c: clang names the LATEST redeclaration (it has a previousDecl); funcDecl registered the first address only
+                key = "call-of-redeclared-function" if (d["prev"] and t["funDef"] is None) else "func-use-unlinked"
+                bad.append((key, "%s: clang: function declared at %d:%d%s; imported: function()=%s" %
+                            (where, d["begin"][0], d["begin"][1], " (a redeclaration)" if d["prev"] else "",
+                             "none" if t["funDef"] is None else "token %d %r" % (t["funDef"], toks[t["funDef"]]["str"])), dict(tok=t["idx"])))
         elif kind == "EnumConstantDecl" and o["role"] == "U":
             stats["enum_uses"] += 1
             td = tok_of_decl.get(o["id"])
@@ -1012,7 +1024,8 @@ def mutate_dump(r, dump):
 # ---------------------------------------------------------------------------------------------------------
 # the check
 # ---------------------------------------------------------------------------------------------------------
-KNOWN_KEYS = ("loc-line-inherited", "param-of-redeclared-function", "declarator-dropped", "not-analysed-interleaved-diagnostics")
+KNOWN_KEYS = ("loc-line-inherited", "param-of-redeclared-function", "declarator-dropped", "not-analysed-interleaved-diagnostics",
+              "call-of-redeclared-function")
 # fixed in /repo (4904769, 62b103f, 683485c): "use-inside-sizeof", "member-nonodr-flag", "crash-interleaved-diagnostics" — their witnesses are
 # still replayed on every run and must stay clean; the old behaviour coming back is a VIOLATION (and breaks the correspondence: the
 # repaired behaviour is the only model)
@@ -1063,6 +1076,24 @@ def evaluate(c, line):
     return viol, stats, "ok"
 
 
+def t_setters(ctx, res):
+    """T: the premise of theorem group (i) on the REAL code — lib/clangimport.cpp touches the AST of a Token only through
+    astOperand1(x) / astOperand2(x).  Fail closed: any other member call whose name starts with `ast`, any `createAst`, any
+    `mAst…` field in the file breaks the obligation."""
+    src = open(os.path.join(core.REPO, "lib", "clangimport.cpp"), encoding="utf-8", errors="replace").read()
+    code = re.sub(r"//[^\n]*", "", re.sub(r"/\*.*?\*/", "", src, flags=re.S))
+    code = re.sub(r'"([^"\\\n]|\\.)*"', '""', code)
+    calls = re.findall(r"(?:->|\.)\s*(ast\w*)\s*\(\s*([^)\s]?)", code)
+    writes = [(n, a) for n, a in calls if a]                     # a call with an argument = a setter
+    other = sorted(set(n for n, a in writes if n not in ("astOperand1", "astOperand2")))
+    extra = sorted(set(re.findall(r"\b(createAst\w*|mAst\w*|astParent|astTop)\b", code)))
+    ok = len(writes) > 20 and not other and not extra
+    res.extra["ast_setter_calls_in_clangimport"] = dict(astOperand_calls=len(writes), other_setters=other, other_ast_names=extra)
+    res.oblig("T:clangimport-writes-the-AST-through-astOperand1/2-only", ok, "translation",
+              "" if ok else "lib/clangimport.cpp: %d astOperand1/2 calls; other AST setters %s; other AST names %s — the premise of "
+              "import_setters_only / import_ast_invariant (C14 reachable_inv) no longer holds for the real importer" % (len(writes), other, extra))
+
+
 def run(ctx, res):
     import time
     rng = ctx.rng
@@ -1074,6 +1105,7 @@ def run(ctx, res):
     exe = ctx.harness("c35")
     T["prove+build"] = round(time.time() - t0, 1)
     res.extra["phase_seconds"] = T
+    t_setters(ctx, res)
 
     # ---- the witnesses of the findings (known and fixed) first ------------------------------------------------------------------
     wit = load_witnesses()
@@ -1229,7 +1261,14 @@ def run(ctx, res):
             inv_ops.append("inv %d %s" % (len(toks), " ".join("%s,%s,%s,%s" % tuple("-" if t[x] is None else t[x] for x in ("parent", "op1", "op2", "link")) +
                                                                     (",%d" % (ord(t["str"][0]) if t["str"] else 0)) for t in toks)))
             inv_cases.append(c)
+    if agg.get("line_checked"):
+        agg["lines_as_clang_means"] = "%d of %d aligned name tokens" % (agg["line_checked"] - agg.get("line_wrong", 0), agg["line_checked"])
     res.extra["p_impl"] = agg
+    res.assumptions += [
+        "clang-14's text and JSON dumps of one program describe the same AST (alignment of tokens with JSON occurrences by unique entity names and source order, vlib/props/c35.py align)",
+        "the location specification in Lean (formOf/printRange) is TextNodeDumper::dumpLocation/dumpSourceRange of clang 14",
+        "which declaration-map calls and AST setter calls the real importer issues is known through the sampled correspondence:import only (the theorems are about the model import and about the map / store)",
+    ]
     # (1) once more, by the Lean checker whose soundness is a theorem
     if inv_ops:
         rc, io, err = core.run_lines(drv, [], inv_ops, timeout=900)
